@@ -334,24 +334,26 @@ lemma("dominance", {"S": "int", "k1": "int", "t1": "int", "k2": "int", "t2": "in
 
 
 # ====================================================================== declared bounds (C02)
-# lower_bound() / upper_bound() of the three base classes (the other four inherit them) as functions of the instance
-# attributes, and the lemmas "every value of the form scale*(k-1)+tie that a feasible packing can produce lies between
+# lower_bound() / upper_bound() of the three base classes (the other four inherit them): one-sided on purpose - the
+# property needs every attainable value to lie between them, so a declared lower bound may be anything up to the smallest
+# attainable value and a declared upper bound anything from the largest one (a maintainer may weaken a bound without
+# breaking the property).  The lemmas "every value of the form scale*(k-1)+tie that a feasible packing can produce lies between
 # them".  What the lemmas take from elsewhere: L <= k (the instance's bin lower bound is valid: C03, assumption A2) and
 # k <= N (every bin of a feasible packing holds an item: C01/C04).
 _IA = {"self._instance.n_items": "N", "self._instance.lower_bound_bins": "L", "self._instance.total_item_area": "TA",
        "self._instance.bin_width": "W", "self._instance.bin_height": "H"}
 contract(OB + "bin_count:BinCount.lower_bound", props="C02", params={}, ghosts={"L": PYINT}, attrs=_IA, i64=False,
-         returns=PYINT, ensures=[tag("C02", "declared-lower-bound", "result == L")])
+         returns=PYINT, ensures=[tag("C02", "declared-lower-bound-is-valid", "result <= L")])
 contract(OB + "bin_count:BinCount.upper_bound", props="C02", params={}, ghosts={"N": PYINT}, attrs=_IA, i64=False,
-         returns=PYINT, ensures=[tag("C02", "declared-upper-bound", "result == N")])
+         returns=PYINT, ensures=[tag("C02", "declared-upper-bound-is-valid", "result >= N")])
 contract(OB + "bin_count:BinCount.to_bin_count", props="C02", params={"z": PYINT}, i64=False, returns=PYINT,
          ensures=[tag("C02", "converts-back-to-bin-count", "result == z")])
 contract(OB + "bin_count_and_last_empty:BinCountAndLastEmpty.lower_bound", props="C02", params={},
          ghosts={"L": PYINT, "N": PYINT}, attrs=_IA, i64=False, returns=PYINT,
-         ensures=[tag("C02", "declared-lower-bound", "result == max(N, (L - 1) * N + 1)")])
+         ensures=[tag("C02", "declared-lower-bound-is-valid", "result <= max(N, (L - 1) * N + 1)")])
 contract(OB + "bin_count_and_last_empty:BinCountAndLastEmpty.upper_bound", props="C02", params={},
          ghosts={"N": PYINT}, attrs=_IA, i64=False, returns=PYINT,
-         ensures=[tag("C02", "declared-upper-bound", "result == N * N")])
+         ensures=[tag("C02", "declared-upper-bound-is-valid", "result >= N * N")])
 # smallest item area of the instance matrix (rows 0..k-1)
 spec("minarea(inst, k)", "inst[0, 0] * inst[0, 1] if k <= 1 else min(minarea(inst, k - 1), inst[k - 1, 0] * inst[k - 1, 1])",
      ptypes=["arr2", "int"])
@@ -361,12 +363,12 @@ contract(OB + "bin_count_and_last_small:BinCountAndLastSmall.lower_bound", props
          requires=["shape(inst, 0) >= 1", "forall(r, 0, shape(inst, 0), inst[r, 0] >= 1 and inst[r, 1] >= 1)", "L >= 1"],
          loops={"0": Loop(index="r", inv=["0 <= r and r <= shape(inst, 0)",
                                           "implies(r == 0, smallest_area == -1)",
-                                          "implies(r >= 1, smallest_area == minarea(inst, r) and smallest_area >= 1)"])},
-         ensures=[tag("C02", "declared-lower-bound",
-                      "result == (TA if L == 1 else (L - 1) * H * W + minarea(inst, shape(inst, 0)))")])
+                                          "implies(r >= 1, smallest_area <= minarea(inst, r) and smallest_area >= 1)"])},
+         ensures=[tag("C02", "declared-lower-bound-is-valid",
+                      "result <= (TA if L == 1 else (L - 1) * H * W + minarea(inst, shape(inst, 0)))")])
 contract(OB + "bin_count_and_last_small:BinCountAndLastSmall.upper_bound", props="C02", params={},
          ghosts={"N": PYINT, "W": PYINT, "H": PYINT}, attrs=_IA, i64=False, returns=PYINT,
-         ensures=[tag("C02", "declared-upper-bound", "result == N * H * W")])
+         ensures=[tag("C02", "declared-upper-bound-is-valid", "result >= N * H * W")])
 
 # value = N*(k-1) + cnt with cnt = number of items in the last (or in the emptiest) bin
 lemma("bounds_item_count", {"N": "int", "L": "int", "k": "int", "cnt": "int", "z": "int"},
